@@ -40,6 +40,18 @@ theorem sunBundle_omitted_is_today (resolve : Nat → TZ) (now : Int) (obs : Obs
     sunBundlePublic resolve now obs none dep tz
       = sunBundlePublic resolve now obs (some (todayIn now (normTz resolve tz))) dep tz := rfl
 
+/-- `midnight` with the date spelled as a datetime — naive or aware, at any time of day — is
+    `midnight` for that datetime's calendar date in the requested zone; an aware datetime's own zone
+    plays no part; omitted means today in the requested zone -/
+theorem midnight_datetime_is_its_date (resolve : Nat → TZ) (now : Int) (obs : Obs α) (tz : TzArg)
+    (w : Int) (z : TZ) :
+    midnightPublicSpec resolve now obs (.naive w) tz = midnightPublic resolve now obs (some (wallDate w)) tz
+    ∧ midnightPublicSpec resolve now obs (.aware w z) tz = midnightPublic resolve now obs (some (wallDate w)) tz
+    ∧ midnightPublicSpec resolve now obs (.date (wallDate w)) tz
+        = midnightPublic resolve now obs (some (wallDate w)) tz
+    ∧ midnightPublicSpec resolve now obs .omitted tz = midnightPublic resolve now obs none tz :=
+  ⟨rfl, rfl, rfl, rfl⟩
+
 /-- a named depression equals its number of degrees in the bundle -/
 theorem sunBundle_named_depression (resolve : Nat → TZ) (now : Int) (obs : Obs α)
     (date : Option Int) (tz : TzArg) :
